@@ -537,7 +537,7 @@ func c03(run *core.Run, replay string) {
 		{"seed-big-bwts-tight", cfg("BWTS", "ANS0", 8<<20, 1, 32), "text", 136 * 31003, S},
 		{"seed-big-bwts", cfg("BWTS", "NONE", 8<<20, 1, 0), "text", 4<<20 + 70000, S},
 		// two blocks above 4 MiB handled by the same task slot (jobs 1), the second one shorter: state kept from block to block
-		{"seed-big-bwt-2blocks", cfg("BWT", "NONE", 6<<20, 1, 0), "html", 6<<20 + 4300000, S},
+		{"seed-big-bwt-2blocks", cfg("BWT", "NONE", 6<<20, 1, 0), "nulblocks", 6<<20 + 4300000, S},
 		{"seed-big-lz", cfg("LZ", "NONE", 8<<20, 1, 32), "repeatblocks", 5 << 20, S},
 		{"seed-big-rolz", cfg("ROLZ", "NONE", 8<<20, 1, 0), "html", 5 << 20, S},
 	}
